@@ -867,14 +867,26 @@ def _(c):
     """sort_children(key, reverse, deep=False): the child list of self -- the same list object -- holds a permutation of its
     former content (bijection witnessed by the assumed contract of list.sort; the *order by key* is not interpreted and stays
     with the bounded tier), nothing else changes, the tree stays well-formed.  A raising key callback leaves some permutation.
-    deep=True (recursion over the re-ordered children) is an assumed variant."""
+    deep=True: proved as well, with the frame "only the child list of self and child lists of deeper nodes change"; the
+    recursion's termination is not proved."""
     c.param("self", "node").param("key", "none", "cb").param("reverse", "false", "true").param("deep", "false", "true")
     c.families = ("plain", "typed")
     c.result_tag = "none"
     c.modifies("litem", "pos")
-    c.assumed_variants = lambda tags: tags["deep"] == "true"
-    c.assumed_variants_reason = "Node.sort_children(deep=True): recursion over the freshly permuted child list; decided by the bounded tier (native/props/mut.py, op sort)"
     c.requires("wf", lambda x: And(wf0(x), self_in_P(x)))
+    deep = lambda x: z3.is_true(x.a.deep)  # noqa: E731
+
+    def below_only(x, h_from, h_to, s):
+        """deep=True: list items differ between the two heaps only in the child list of s and in child lists of nodes that
+        lie deeper than s (rank = ghost depth; every node of the branch below s does).  Together with the unchanged parent
+        links, list objects and lengths (not in the modifies clause) and wf afterwards, every such child list is a
+        permutation of its former content."""
+        l, i, q = L.fresh("l", L.LRef), L.fresh("i", L.I), L.fresh("q", L.Ref)
+        return ForAll([l, i], Or(h_to.litem(l, i) == h_from.litem(l, i),
+                                 Exists([q], And(h_from.inP(x.T, q), h_from._children(q) == l, l != LNONE, Or(q == s, h_from.rank(q) > h_from.rank(s))))), patterns=[h_to.litem(l, i)])
+
+    def deep_post(x):
+        return And(below_only(x, x.h0, x.h, x.a.self), wf1(x))
 
     def permuted(x):
         h0, h, s = x.h0, x.h, x.a.self
@@ -905,11 +917,18 @@ def _(c):
             ForAll([l, i], Implies(l != h0._children(s), h.litem(l, i) == h0.litem(l, i)), patterns=[h.litem(l, i)]),
         )
 
-    c.ensures("same list object, a permutation of the former children; every other list unchanged", permuted)
+    c.ensures("deep=False: same list object, a permutation of the former children; every other list unchanged -- deep=True: only child lists of self and of deeper nodes change",
+              lambda x: below_only(x, x.h0, x.h, x.a.self) if deep(x) else permuted(x))
     c.ensures("the tree stays well-formed", lambda x: wf1(x))
-    c.may_raise("Callback", ensures=lambda x: And(permuted(x), wf1(x)), name="the key callback raises: still a permutation, still well-formed")
+    c.may_raise("Callback", ensures=lambda x: deep_post(x) if deep(x) else And(permuted(x), wf1(x)), name="the key callback raises: still a permutation, still well-formed")
+    # deep=True: `for c in cl: c.sort_children(deep=True)` -- the tree is well-formed before every recursive call, and what
+    # changed so far lies in the list of self or deeper (so the iterated list `cl` itself is not touched by the calls)
+    c.loop(1).invariant = lambda x: And(wf(x.h, x.T), below_only(x, x.h0, x.h, x.a.self))
+    c.loop(1).modifies = ("litem", "pos")
 
     def pos_exit(x, o):
+        if deep(x):
+            return x.h.pos(o)  # the ghost positions were maintained step by step (list.sort's ghost code, the callee's wf)
         perms = x.p.ghost.get("perms") if getattr(x, "p", None) is not None else None
         if not perms:
             import contracts.vocab as V
